@@ -14,7 +14,7 @@ Theorems of Props/C01.v, Props/C13.v this tie connects to the code: C01_chunk_ti
 C01_order_irrelevant, C01_int_roundtrip, C01_string_roundtrip, C13_read_after_resize,
 C13_read_after_two_resizes_partial / C13_shrink_grow_refuted.
 """
-import itertools, struct, time
+import itertools, os, struct, time
 import vlib
 import histlib
 
@@ -229,8 +229,11 @@ def run_unit(ctx):
     evaluations = 0
     distinct = set()
 
+    spec_failed = set()     # indices of cases already reported with a specification-violating input
+
     def bad(what, case, r, **kw):
         c = dict(case)
+        spec_failed.update(j for j, cc in enumerate(cases) if cc is case)
         viol.append(dict(what=what, failing_input=c, case=c, impl={k: v for k, v in r.items() if k != "stack"}, **kw))
 
     # ---- specification on the Go outputs (Python oracle)
@@ -255,9 +258,12 @@ def run_unit(ctx):
             continue
         spec_bad = False
         for g, e in zip(got, exp_chunks):
-            if g["coord"] != e[0] or g["key"] != e[1] or g["size"] != e[2] or bytes.fromhex(g["bytes"]) != e[3]:
-                bad("chunk %s of dims %s chunk %s: coordinate/key/size/bytes differ from the padded box of the data "
-                    "(got coord %s key %s size %s)" % (e[0], dims, cdims, g["coord"], g["key"], g["size"]), c, r,
+            diff = [f for f, a, b in (("coordinate", g["coord"], e[0]), ("index key", g["key"], e[1]), ("clipped size", g["size"], e[2]),
+                                      ("padded bytes", bytes.fromhex(g["bytes"]), e[3])) if a != b]
+            if diff:
+                bad("dims %s chunk dims %s esz %d, chunk %s: %s differ(s) from the zero-padded box of the data "
+                    "(got coord %s key %s size %s bytes %s, expected key %s size %s bytes %s)"
+                    % (dims, cdims, esz, e[0], ", ".join(diff), g["coord"], g["key"], g["size"], g["bytes"][:48], e[1], e[2], e[3].hex()[:48]), c, r,
                     expected=dict(coord=e[0], key=e[1], size=e[2], bytes=e[3].hex()))
                 spec_bad = True
                 break
@@ -268,6 +274,9 @@ def run_unit(ctx):
                        expect.hex()[:64]))
             bad(what, c, r, expected=expect.hex())
             spec_bad = True
+        if os.environ.get("C01UNIT_SELFTEST") == "model" and not tile_terms:
+            # self-test of the comparison itself: hand Coq a corrupted copy of the Go output
+            got = [dict(got[0], bytes="%02x" % (int(got[0]["bytes"][:2], 16) ^ 1) + got[0]["bytes"][2:])] + got[1:]
         gos = "[" + ";".join("(%s,%s,%s,%s)" % (cl(g["coord"]), cl(g["key"]), cl(g["size"]), pk(g["bytes"])) for g in got) + "]"
         rb = "None" if r["read"]["bytes"] == c["data"] else "(Some %s)" % pk(r["read"]["bytes"])
         tile_terms.append("(%s,%s,%s,%d,%s,%s,%s,%s,%s)" % (
@@ -380,21 +389,22 @@ def run_unit(ctx):
     out = vlib.coq_eval("".join(vparts), "c01unit_cases")
     coq_s = time.time() - t1
     counts = vlib.parse_nlist(out, "ALLBAD")
-    already = {id(v["case"]) for v in viol}
-    reported = {v["failing_input"].get("data", "") + str(v["failing_input"].get("dims")) for v in viol}
     for (lab, kind, idxs), nbad in zip(labels, counts):
         if nbad == 0:
             continue
-        for j in vlib.parse_nlist(out, lab)[:3]:
-            c, r = cases[idxs[j]], res[idxs[j]]
-            key = c.get("data", "") + str(c.get("dims"))
-            if kind == "coqspec":
-                if key not in reported:
-                    bad("Coq specification (resize_arr) rejects the Go read result for dims %s chunk %s read under %s"
-                        % (c.get("dims"), c.get("cdims"), c.get("newdims", c.get("dims"))), c, r)
-                continue
-            if key in reported and c["mode"] in ("tile", "resize"):
+        shown = 0
+        for j in vlib.parse_nlist(out, lab):
+            i = idxs[j]
+            c, r = cases[i], res[i]
+            if i in spec_failed:
                 continue   # already reported with a specification-violating input
+            if shown >= 3:
+                break
+            shown += 1
+            if kind == "coqspec":
+                bad("Coq specification (resize_arr) rejects the Go read result for dims %s chunk %s read under %s"
+                    % (c.get("dims"), c.get("cdims"), c.get("newdims", c.get("dims"))), c, r)
+                continue
             # Go != model but the Python oracle accepted the Go output: fidelity divergence
             viol.append(dict(what="implementation and Coq model disagree (%s) while the specification holds on this input" % c["mode"],
                              case=c, impl={k: v for k, v in r.items() if k != "stack"}, nofail=True,
@@ -409,7 +419,10 @@ def run_unit(ctx):
                      "after an intermediate Resize to [3] the specification is %s (theorem C13_shrink_grow_refuted; "
                      "class: some intermediate extent below both outer extents, see C13_read_after_two_resizes_partial)"
                      % (wr["read"]["bytes"], twice.hex()))
-    return dict(violations=viol, evaluations=evaluations, distinct=len(distinct), samples=samples[:8], known=known,
+    nviol = len(viol)
+    viol.sort(key=lambda v: bool(v.get("nofail")))
+    viol = viol[:25]
+    return dict(violations=viol, violations_total=nviol, evaluations=evaluations, distinct=len(distinct), samples=samples[:8], known=known,
                 coq_cases=len(tile_terms) + len(conv_terms) + len(encint_terms) + len(encstr_terms) + len(decstr_terms),
                 coq_seconds=round(coq_s, 1), wall_s=round(time.time() - t0, 1),
                 distribution=dict(tile=len(tile), resize=len(resize), conv_buffers=len(conv), enc_buffers=len(enc),
